@@ -29,7 +29,7 @@ CHECKS = {
                 text="13 theorems: similarity invariance of char_poly over any commutative ring, congruence version modulo any ideal (in particular modulo x^(N+1): coefficients of total order <= N, multi-parameter via F = K[c]), block-diagonal factorisation, Rayleigh-Schroedinger uniqueness of the eigenvalue series of a non-degenerate fully diagonalised level; tie lemmas proving the executable determinant equal to MathComp's. The bridge series-of-matrices <-> matrices-of-series to C01/C02 is not formalised (trusted).",
                 note=BASE_NOTE + "The premises of C04_charpoly_trunc are the conclusions of C01/C02 read entry-wise (bridge between the Ncring and MathComp developments trusted); Q arithmetic of the executable check (Qred/Qeq_bool) is the unproved link of the tie."),
     "C05": dict(cat="proof", tech="Coq theorem on the regenerated nonhermitian_alg (translator) + exact differential oracle; similarity clauses _partial with known finding",
-                text="Theorems C05_inverse_l, C05_inverse_r, C05_gauge at full strength for every solution of the regenerated nonhermitian_alg in every BlockAlg (asymmetric masks included); C05_kept_partial / C05_eliminated_partial under the extra hypothesis that kept elements connect equal unperturbed energies - outside it the property is false on the unchanged tree (known finding C05-kept-distinct-energies, witness replayed each run). Coincidence with the Hermitian mode on Hermitian input: oracle only.",
+                text="Theorems C05_inverse_l, C05_inverse_r, C05_gauge at full strength for every solution of the regenerated nonhermitian_alg in every BlockAlg (asymmetric masks included); C05_kept_partial / C05_eliminated_partial under the extra hypothesis that kept elements connect equal unperturbed energies - outside it the property is false on the unchanged tree (known finding C05-kept-distinct-energies, witness replayed each run). Coincidence with the Hermitian mode on Hermitian input: C05_hermitian_coincide_partial (Alg/Coincide.v, under [H_0, Sel x] = 0, i.e. the same class) + oracle.",
                 note=ALG_NOTE),
     "C06": dict(cat="proof", tech="Coq: naturality of the semantics (any program) + equivariance by uniqueness, C16_direct, C17; tied by correspondence k_implicit (implicit vs explicit embedded), k_greens, k_projector; partial",
                 text="C06_embedding_partial / C06_outputs_correspond_partial: any structure-preserving map between BlockAlgs intertwining the scopes maps solutions of the generated programs to solutions and (Hermitian mode) the three outputs correspond; with C16_direct (solver) and C17 (projector). Partial: the identification of the implicit block algebra with a corner algebra (unit diag(1,P)) is not formalised; KPM accuracy monitored only. Known finding C06-nh-implicit-fully-diagonalize (IndexError) replayed each run.",
@@ -38,10 +38,10 @@ CHECKS = {
                 text="C07_mask_* (apply_mask_to_operator is an additive idempotent selection, keep/eliminate partition, commutes with adjoint and with functions of number operators), C08_* and C16_scalar on the NumberOrderedForm model, and the generic theorems C01/C02 for any BlockAlg. Partial: the BlockAlg instance over number-ordered forms and the band-locality argument (equality with TRUNCATED matrices away from the edge) are not formalised; that clause is decided by the oracle (Jordan-Wigner + Fock truncation, U†U=1 and U†HU=H_tilde on interior states).",
                 note=BASE_NOTE + "sympy simplification assumed to preserve denotations."),
     "C08": dict(cat="proof", tech="Coq theorems on a hand model of NumberOrderedForm (Fock-space denotation with Jordan-Wigner signs) tied by correspondence k_nof (term dictionaries on occupation grids, vm_compute) + independent matrix oracle",
-                text="12 theorems, unbounded in occupation numbers, powers and number of modes: _multiply_op (all four branches incl. the fermionic sign counting), _multiply_expr, __mul__, +, -, adjoint (weighted inner product), integer powers denote the corresponding operators; associativity and distributivity as equalities of denotations. Not proved: (xy)† = y†x† as a theorem (oracle only), from_expr/as_expr round trip, negative powers.",
+                text="17 theorems, unbounded in occupation numbers, powers and number of modes: _multiply_op (all four branches incl. the fermionic sign counting), _multiply_expr, __mul__, +, -, adjoint (weighted inner product), integer powers denote the corresponding operators; associativity and distributivity as equalities of denotations; C08_dagger_mul ((xy)† = y†x† on matrix elements between physical Fock states); C08_from_expr / C08_as_expr / C08_roundtrip (conversion from and to expressions denotes the same operator, from_expr(as_expr x) never raises); C08_pow_neg (negative powers of number-only forms are inverses where the coefficient does not vanish). Negative powers of forms with unpaired operators raise in the code and are outside the property; as_expr theorem for coefficients without reciprocals.",
                 note=BASE_NOTE + "Preconditions sig_ok / wf_nof / bok in the statements (operator ordering, binary powers in {-1,0,1}, binary occupations) are preserved by every modelled operation; sympy xreplace/simplify assumed value-preserving."),
     "C09": dict(cat="proof", tech="Coq theorems on hand models of the compiler (Compile.v) and evaluator (Exec.v) against the specification interpreter (Interp.v), tied by correspondence k_compile (generated code, canonical s-expressions) and k_seriescomp (values on generated programs) + independent Python interpreter as oracle",
-                text="C09_sound: for every program, value ring, scope, fuel, fault plan and request schedule, every value returned by the evaluator for ANY series name (deleted or not, either table) denotes the value of the direct interpretation, including deletion of once-used terms, Hermitian shortcuts (their validity is an explicit hypothesis herm_low/herm_diag of the world), flags and linear-operator mode; C09_main_regular / C09_nh_regular. Termination (Stratified.v) not proved: statements are for runs within fuel, non-vacuity by vm_compute examples.",
+                text="C09_sound: for every program, value ring, scope, fuel, fault plan and request schedule, every value returned by the evaluator for ANY series name (deleted or not, either table) denotes the value of the direct interpretation, including deletion of once-used terms, Hermitian shortcuts (their validity is an explicit hypothesis herm_low/herm_diag of the world, PROVED for the shipped main algorithm: C09_sound_main via DSL/HermValid.v, HermMain.v), flags and linear-operator mode; C09_main_regular / C09_nh_regular. Termination not proved (Stratified.v is a decidable certificate passed by both shipped algorithms, not the theorem): statements are for runs within fuel, non-vacuity by vm_compute examples.",
                 note=BASE_NOTE),
     "C10": dict(cat="proof", tech="Coq corollaries of the evaluator soundness invariant + correspondence k_schedules (all permutations/repetitions of requests, shared inputs, read-only arrays)",
                 text="C10_history (any two schedules return the same value, the interpretation value), C10_inputs_untouched (compile never deletes an input; no request changes a Done input entry). Physical non-mutation of NumPy buffers is enforced by the harness (read-only flags, deep copies): partial for that clause.",
@@ -53,7 +53,7 @@ CHECKS = {
                 text="C12_causal, C12_once, C12_noninterference for every program whose input names contain no '@'; C12_definition (only zeroth-order terms evaluated at definition time) is decided by the harness.",
                 note=BASE_NOTE),
     "C13": dict(cat="proof", tech="Coq: each relation is an LAHom between concrete series instances (Series/Sym*.v) + transport theorems (naturality/uniqueness, Alg/Equivariance.v) + exact relation oracles on the implementation",
-                text="C13_scale, C13_permute, C13_vanishing, C13_merge, C13_power: for the concrete algebra of series of block matrices with the wiring discharged, the map applied to H is the map relating U, U† and H_tilde (merge and power are instances of a general push-forward theorem along a monoid morphism with finite fibres). Hermitian mode; the non-Hermitian relations are decided by the oracles only.",
+                text="C13_scale, C13_permute, C13_vanishing, C13_merge, C13_power: for the concrete algebra of series of block matrices with the wiring discharged, the map applied to H is the map relating U, U† and H_tilde (merge and power are instances of a general push-forward theorem along a monoid morphism with finite fibres). Hermitian mode; for the non-Hermitian algorithm the general transport theorem (transport_nh along an SGHom, Alg/Equivariance.v) is proved, the per-relation instances are decided by the oracles.",
                 note=ALG_NOTE),
     "C14": dict(cat="proof", tech="Coq theorems on hand models of the container normalisation and of operator_to_BlockSeries tied by correspondence k_formats (vm_compute) + pairwise exact comparison of all presentations on the implementation",
                 text="9 theorems: all container formats denoting the same family normalise to the same series, list orders, symbols sorted by name, Taylor coefficients for polynomial symbolic dependence (_partial: non-polynomial analytic dependence delegated to sympy), nested blocks, projection L_i^dagger A R_j (entry formula; sub-matrices for index vectors), Hermitian fill. The eigenbasis-rotation clause is the LAHom instance C15_degenerate_rotation / transport theorems (Alg/Equivariance.v).",
